@@ -59,6 +59,7 @@ const (
 	DiagReceiverInvalidBody                    DiagnosticCode = "receiver-invalid-body"
 	DiagReceiverParamNotPrimitive              DiagnosticCode = "receiver-parameter-not-primitive"
 	DiagReceiverParamNameCollision             DiagnosticCode = "receiver-parameter-name-collision"
+	DiagReceiverParamInvalidSchemaName         DiagnosticCode = "receiver-parameter-invalid-schema-name"
 	DiagReceiverRetValsInvalidSignature        DiagnosticCode = "receiver-return-values-invalid-signature"
 	DiagReceiverRetValsIsNotError              DiagnosticCode = "receiver-return-value-is-not-an-error"
 	DiagReceiverMissingSecurity                DiagnosticCode = "receiver-missing-security"
